@@ -863,9 +863,10 @@ class TermCanvas(Canvas):
                 x += 1
 
                 if x >= self.width and self.is_rotten_cursor:
-                    if y >= self.scrollregion_end:
+                    # wrap like a line feed: scroll only at the bottom margin, stay on the last row below it
+                    if y == self.scrollregion_end:
                         self.scroll()
-                    else:
+                    elif y < self.height - 1:
                         y += 1
 
                     x = 1
